@@ -41,6 +41,8 @@ func httpGenerations(r *mon.Run) {
 		viol := func(key, what string) {
 			r.Violate("http", i, key, what, map[string]any{"generations": hist, "log_tail": s.Log.Tail(30)})
 		}
+		// the start-up help must be out before the first window opens
+		s.Log.Wait(0, hk.Bound, func(e bk.Event) bool { return e.Kind == "op" && strings.Contains(e.S, "--pinnedpubkey") })
 		from, _ := s.Mark(fmt.Sprintf("MARK-%d-start", i))
 		for g := 0; g < gensPer; g++ {
 			bidir := rng.IntN(3) == 0
